@@ -6,7 +6,7 @@ from props import symgen as G
 
 class C09(PropBase):
     pid = "C09"
-    coq_dirs = ["Base", "C09"]
+    coq_dirs = ["Base", "C08", "C11", "C09"]
     translators = []
     bins = ["c09"]
     impl_timeout = 600
